@@ -33,7 +33,7 @@ def main():
         r = sh("git -C %s apply %s" % (repo, patch))
         if r.returncode != 0:
             print("%-40s PATCH DOES NOT APPLY: %s" % (name, r.stderr.strip()[:120])); return 3
-        sh("rsync -a --exclude .git --exclude engine/target --exclude evidence/replays /verif/ %s/" % verif)
+        sh("rsync -a --exclude .git --exclude engine/target --exclude evidence/replays %s/ %s/" % (os.environ.get("VERIF_SRC", "/verif"), verif))
         sh("sed -i 's#path = \"/repo\"#path = \"%s\"#' %s/engine/waxmc/Cargo.toml" % (repo, verif))
         line = "%-40s" % name
         firsts = []
